@@ -25,8 +25,8 @@ Termination.  `nameLoop` (the `while (1)` of `message_name_get` together with it
 on a compression pointer) is accepted by Lean's termination checker with the measure
 `off * (size + 2) + (size + 1 - i)` — a Nat encoding of the lexicographic pair
 (start offset of the current call, bytes left): a label step keeps `off` and advances `i`, a
-pointer step strictly lowers `off` because of the guard `pointer < buf_offset`.  No fuel, no
-`partial`.  The do/while of the bubble sort terminates because a pass that swapped lowers the
+pointer step strictly lowers `off` because of the guard `pointer < buf_offset`.  No fuel and no
+escape from the termination checker.  The do/while of the bubble sort terminates because a pass that swapped lowers the
 number of inversions (`inv`).
 -/
 import Strophe.Util.Hex
